@@ -358,4 +358,104 @@ def publishedUids (st : State) : List Nat := (st.published.map liveUids).flatten
 def pendingUids (st : State) (opstamp : Nat) : List Nat :=
   ((st.uncommitted ++ st.committed).map fun e => liveUids (advance st.queue e opstamp)).flatten
 
+/-! ## Part 3 — the writer as an event machine (all interleavings of one merge with the rest)
+
+`Sys` adds to `State` what the real writer keeps besides the registers: the merge in flight, the
+stamper and the segment-id source. Events are the calls / internal steps that can interleave with
+a merge: a worker flushing a segment, `delete_term`, `commit`, `rollback`,
+`delete_all_documents`, the start of a merge (`start_merge`: sources looked up in the register
+that holds ALL ids, target opstamp by `mergeTarget`, result computed from the entries as they
+are now) and its end (`end_merge`). One merge is in flight at a time (a second `startMerge` is
+ignored). The stamper never hands out an opstamp twice (after `rollback` the real stamper restarts
+at the committed opstamp: the first operation of the new writer then shares the commit's opstamp —
+C02's recorded finding — which is outside this machine). Explicit merges of uncommitted segments
+(target = commit opstamp, the recorded finding of this property) are not an event: uncommitted
+sources always get the policy rule. -/
+
+structure Sys where
+  st : State
+  running : Option Running
+  /-- next opstamp -/
+  stamp : Nat
+  /-- next segment id -/
+  nextId : Nat
+
+inductive Ev
+  | addSeg (docs : List DocRec)
+  | delete (key : Nat)
+  | commit
+  | rollback
+  | deleteAll
+  | startMerge (ids : List Nat)
+  | endMerge
+
+def inSources (ids : List Nat) (e : Entry) : Bool := ids.contains e.segId
+
+def Sys.init : Sys :=
+  { st := { queue := [], committed := [], uncommitted := [], committedOpstamp := 0, published := [],
+            epoch := 0 },
+    running := none, stamp := 1, nextId := 0 }
+
+def Sys.step (s : Sys) : Ev → Sys
+  | .addSeg docs =>
+    let e : Entry := { segId := s.nextId, docs := docs, alive := List.replicate docs.length true,
+                       cursor := s.st.queue.length }
+    { s with st := { s.st with uncommitted := s.st.uncommitted ++ [e] }, nextId := s.nextId + 1 }
+  | .delete key => { s with st := pushDelete s.st ⟨s.stamp, key⟩, stamp := s.stamp + 1 }
+  | .commit => { s with st := commit s.st s.stamp, stamp := s.stamp + 1 }
+  | .rollback => { s with st := rollback s.st }
+  | .deleteAll => { s with st := deleteAll s.st }
+  | .startMerge ids =>
+    match s.running with
+    | some _ => s
+    | none =>
+      if ids = [] then s
+      else if containsAll s.st.uncommitted ids then
+        { s with
+          running := some ⟨ids, mergeEntries s.st.queue (s.st.uncommitted.filter (inSources ids))
+            (mergeTarget false s.st.committedOpstamp s.stamp) s.nextId, s.st.epoch⟩,
+          stamp := s.stamp + 1, nextId := s.nextId + 1 }
+      else if containsAll s.st.committed ids then
+        { s with
+          running := some ⟨ids, mergeEntries s.st.queue (s.st.committed.filter (inSources ids))
+            (mergeTarget true s.st.committedOpstamp s.stamp) s.nextId, s.st.epoch⟩,
+          nextId := s.nextId + 1 }
+      else s
+  | .endMerge =>
+    match s.running with
+    | none => s
+    | some r => { s with st := endMerge s.st r, running := none }
+
+def Sys.run (s : Sys) (evs : List Ev) : Sys := evs.foldl Sys.step s
+
+/-- SPEC: the sequential replay — what the index contains if merges did not exist -/
+structure Abs where
+  /-- documents a searcher sees -/
+  pub : List DocRec
+  /-- documents the next commit will publish -/
+  pend : List DocRec
+
+def Abs.init : Abs := { pub := [], pend := [] }
+
+def Abs.step (a : Abs) : Ev → Abs
+  | .addSeg docs => { a with pend := a.pend ++ docs }
+  | .delete key => { a with pend := a.pend.filter fun d => !d.keys.contains key }
+  | .commit => { a with pub := a.pend }
+  | .rollback => { a with pend := a.pub }
+  | .deleteAll => { a with pend := [] }
+  | .startMerge _ => a
+  | .endMerge => a
+
+def Abs.run (a : Abs) (evs : List Ev) : Abs := evs.foldl Abs.step a
+
+def liveDocsOf (e : Entry) : List DocRec := liveDocs e.docs e.alive
+
+/-- live docs of an entry once every queued delete from its cursor on is applied -/
+def docsAll (q : List DelOp) (e : Entry) : List DocRec :=
+  (liveDocsOf e).filter fun d => !(q.drop e.cursor).any fun op => hits op d
+
+def pubDocs (st : State) : List DocRec := (st.published.map liveDocsOf).flatten
+def pendDocs (st : State) : List DocRec :=
+  ((st.uncommitted ++ st.committed).map (docsAll st.queue)).flatten
+
 end TantivyModel.Merge
